@@ -421,7 +421,7 @@ pub fn run_batch(bin: &Path, njobs: usize, args: &[String]) -> RunResult {
         let mut a = args.to_vec();
         a.push("--from".into());
         a.push(from.to_string());
-        let (out, status) = run_once(bin, &a, 600);
+        let (out, status) = run_once(bin, &a, 300);
         let mut last_start = None;
         let mut done = false;
         for line in out.lines() {
@@ -451,7 +451,7 @@ pub fn run_batch(bin: &Path, njobs: usize, args: &[String]) -> RunResult {
         // attribute to an input
         let mut t = args.to_vec();
         t.extend(["--only".into(), bad.to_string(), "--trace".into()]);
-        let (tout, tstatus) = run_once(bin, &t, 60);
+        let (tout, tstatus) = run_once(bin, &t, 30);
         let last_trace = tout
             .lines()
             .filter(|l| l.starts_with("TRACE "))
